@@ -134,16 +134,55 @@ def hookOk (pre : Sys) (a : Action) (rep : Report) : Bool :=
 
 /-! ### running a schedule -/
 
+/-- an in-flight reconcile of Usage `n` during which, so far, the Usage (uid `V`) and the resource
+its spec.by `b` refers to (uid `U`) have existed as the same objects (`Held` in every state) -/
+abbrev Tracked := String × Nat × RSpec × Nat
+
+def Tracked.held (e : Tracked) (sys : Sys) : Bool := decide (Held e.1 e.2.1 e.2.2.1 e.2.2.2 sys)
+
+/-- what `owned_by_current_user` starts from: the Usage has a resolved spec.by whose resource exists -/
+def trackOf (s : Store) (n : String) : Option Tracked :=
+  match s.getU n with
+  | none => none
+  | some y =>
+    match y.by_ with
+    | none => none
+    | some b =>
+      if b.name = "" then none else
+      match s.getR (groupOf b.av) b.kind b.name with
+      | none => none
+      | some g => some (n, y.uid, b, g.uid)
+
+/-- owned_by_current_user (proved for every maxc) evaluated on the run: `trk` are the reconciles
+tracked in the state before the action -/
+def ownerStep (trk : List Tracked) (a : Action) (rep : Report) (post : Sys) : List Tracked × Bool :=
+  let trk := trk.filter (·.held post)
+  match a, rep with
+  | .start n, .started true =>
+    (match trackOf post.store n with
+     | some e => (e :: trk.filter (fun x => x.1 != n), true)
+     | none => (trk.filter (fun x => x.1 != n), true))
+  | .step n _ _, .call _ _ (some r) =>
+    let ok := r != .poll || trk.all fun e => e.1 != n ||
+      match post.store.getU n with
+      | some y => y.owners.any (·.uid == e.2.2.2)
+      | none => false
+    (trk.filter (fun x => x.1 != n), ok)
+  | _, _ => (trk, true)
+
 structure RunSt where
   sys : Sys
   steps : List String   -- reversed
   ok : Bool
   why : String
+  trk : List Tracked := []
 
 def RunSt.act (st : RunSt) (a : Action) : RunSt × String :=
   let (sys', rep) := st.sys.exec a
   let fail (w : String) (st : RunSt) : RunSt := if st.ok then { st with ok := false, why := w } else st
-  let st' : RunSt := { st with sys := sys' }
+  let (trk', ownOk) := ownerStep st.trk a rep sys'
+  let st' : RunSt := { st with sys := sys', trk := trk' }
+  let st' := if ownOk then st' else fail "C19:model-usage-not-owned-by-current-user" st'
   let st' := if ownedOk sys'.store then st' else fail "C19:model-ready-not-owned" st'
   let st' := if removalOk st.sys a sys' then st' else fail "C19:model-marker-removed-with-other-usage" st'
   let st' := if hookOk st.sys a rep then st' else fail "C19:model-webhook-verdict" st'
@@ -207,7 +246,7 @@ def ownersStr (s : Store) (os : List OwnerRef) : List String :=
 
 def handler : Handler := fun scn =>
   let maxc := max 1 (nat scn "maxc")
-  let st0 : RunSt := ⟨Sys.init maxc, [], true, ""⟩
+  let st0 : RunSt := { sys := Sys.init maxc, steps := [], ok := true, why := "" }
   let st := (arr scn "steps").foldl stepOf st0
   let s := st.sys.store
   let us := (s.usages.mergeSort fun a b => a.name ≤ b.name).map fun u =>
